@@ -15,6 +15,7 @@ import (
 	gotime "time"
 
 	"github.com/yorkie-team/yorkie/pkg/attachable"
+	"github.com/yorkie-team/yorkie/pkg/document/time"
 	"github.com/yorkie-team/yorkie/server/backend/database"
 	"github.com/yorkie-team/yorkie/server/packs"
 )
@@ -253,6 +254,9 @@ func runInBubble(p *Profile, o RunOpts, res *RunResult) {
 		rc.log.add(fmt.Sprintf("%d %s -> %s", i, st.String(), describe(&sr)))
 		if o.KeepLog {
 			rc.dumpState()
+			if rc.Cfg.Trace {
+				rc.dumpServer()
+			}
 		}
 		if sr.Out == "hang" {
 			viol = &Violation{Property: p.Property, Oracle: "no_hang", Class: "hang:" + st.Op, Detail: "step did not finish: " + st.String(), Step: i}
@@ -361,6 +365,10 @@ func (rc *RunCtx) Quiesce() *Violation {
 				st := &Step{Op: "sync", C: sc.Idx, D: d}
 				sr := w.Exec(st)
 				rc.log.add(fmt.Sprintf("q%d %s -> %s", round, st.String(), describe(&sr)))
+				if rc.log.keep && rc.Cfg.Trace {
+					rc.dumpState()
+					rc.dumpServer()
+				}
 				if sr.Out != "ok" {
 					return &Violation{Property: rc.P.Property, Oracle: "quiescent_sync_succeeds",
 						Class: "qsync_failed:" + describe(&StepResult{Out: sr.Out, Err: sr.Err}),
@@ -421,6 +429,26 @@ func (rc *RunCtx) dumpState() {
 				rc.log.add("        " + rankVV(rc, structure(sd.Doc.RootObject())))
 			}
 		}
+	}
+}
+
+// dumpServer writes the server's view (head, minimum vector over the stored
+// client rows) into the event log.
+func (rc *RunCtx) dumpServer() {
+	ctx := context.Background()
+	for d := 0; d < rc.Cfg.Docs; d++ {
+		info, err := rc.W.mem.FindDocInfoByKey(ctx, rc.W.Projects[0].ID, docKey(d))
+		if err != nil {
+			continue
+		}
+		big := time.NewVersionVector()
+		for _, sc := range rc.W.Clients {
+			if sc != nil && sc.Cli.IsActive() {
+				big.Set(sc.Cli.ID(), 1<<40)
+			}
+		}
+		min, _ := rc.W.mem.GetMinVersionVector(ctx, info.RefKey(), big)
+		rc.log.add(fmt.Sprintf("    server d%d head=%d epoch=%d minOverRows=%s", d, info.ServerSeq, info.Epoch, rankVV(rc, min.Marshal())))
 	}
 }
 
